@@ -53,6 +53,19 @@ def rearm_after_interruption(chk: Check, rule: str) -> None:
                 rearm_ok = bool(assigns) and bool(raises) and assigns[0] < raises[0]
     chk.ob(rule, we, rearm_ok, 'after an interruption the waiting future is replaced (by a fresh one, or dropped for lazy re-creation) before the '
            'interruption is re-raised (the state can be executed again)', kind='rearm-after-interruption')
+    # ... and ONLY there: the future a resume() / an awaitable completion may already have resolved (between the load of a checkpoint and the first step, say) is
+    # the one execute awaits -- replacing it anywhere else in execute throws that wake-up away (unless the replacement is made where it is known not to be done)
+    wv = prog.view(we)
+    fw = chk.ctx.facts.analyse(wv)
+    for m in fw.cfg.nodes:
+        a_ = m.ast
+        if m.kind == 'stmt' and isinstance(a_, (ast.Assign, ast.AnnAssign)) and a_.value is not None and any(norm(t) == LOC for t in (a_.targets if isinstance(a_, ast.Assign) else [a_.target])):
+            in_handler = any(isinstance(t, ast.Try) and any(h.type is not None and unparse(h.type).split('.')[-1] == 'Interruption' and any(x is a_ for s_ in h.body for x in ast.walk(s_))
+                                                               for h in t.handlers) for t in ast.walk(wv.node))
+            known_pending = ('F', f'{LOC}.done()') in fw.at(m)
+            chk.ob(rule, we, in_handler or known_pending, 'execute replaces the waiting future only after an interruption (or where it is known to be pending)' + ('' if in_handler or known_pending else
+                   ': a wake-up delivered before the step started -- resume() on a freshly loaded process -- resolved the OLD future; the step then waits on the new one for ever'),
+                   node=a_, kind='replaced-only-after-interruption')
     nullable = []
     for c in waiting_classes(prog):
         for f in c.emethods.values():
@@ -82,6 +95,17 @@ def rearm_after_interruption(chk: Check, rule: str) -> None:
                 chk.ob(rule, f, ok, f'the waiting future may be absent ({", ".join(chk.units["waiting_future_nullable"])} store None) and this use does not know it exists: '
                        'it raises AttributeError / TypeError instead of waking or interrupting the step', node=deref, kind='use-of-absent-future')
     chk.units['waiting_future_direct_uses'] = n_deref
+
+
+def resume_forwards_its_arguments(chk: Check, rule: str) -> None:
+    """Process.resume(*args) hands exactly what it was given to the state's resume: whether a value was passed is decided by the NUMBER of arguments, so resume(None)
+    and resume() stay different things (shared with C13: f(v) for every v, f() only without a value)."""
+    prog = chk.prog
+    pr = prog.func('processes.Process.resume')
+    rc = [c for c in calls_in_func(pr, 'resume')]
+    va = pr.node.args.vararg.arg if pr.node.args.vararg else None
+    fw = len(rc) == 1 and norm(rc[0].func) == 'self._state.resume' and [norm(a) for a in rc[0].args] == [f'*{va}']
+    chk.ob(rule, pr, fw, 'resume(*args) hands *args to the state\'s resume', node=rc[0] if rc else pr.node, kind='forward-varargs')
 
 
 def run(chk: Check) -> None:
@@ -128,10 +152,7 @@ def run(chk: Check) -> None:
                 c = prog.resolve_class(pr.module, kw.value)
                 from_ok = c is not None and c.qualname == 'process_states.Waiting'
     chk.ob('FWD-resume', pr, from_ok, 'resume() is an event valid only in WAITING', kind='event-from-waiting')
-    rc = [c for c in calls_in_func(pr, 'resume')]
-    va = pr.node.args.vararg.arg if pr.node.args.vararg else None
-    fw = len(rc) == 1 and norm(rc[0].func) == 'self._state.resume' and [norm(a) for a in rc[0].args] == [f'*{va}']
-    chk.ob('FWD-resume', pr, fw, 'resume(*args) hands *args to the state\'s resume', node=rc[0] if rc else pr.node, kind='forward-varargs')
+    resume_forwards_its_arguments(chk, 'FWD-resume')
     wr = prog.func('process_states.Waiting.resume')
     sr = [s for s in sites if s.func is wr and s.op == 'set_result']
     vparam = wr.params[1] if len(wr.params) > 1 else None
